@@ -112,4 +112,22 @@ def c02ok (o : C02Obs) : Bool :=
   o.onError + o.eoc ≤ o.pre && o.eoc ≤ o.ready &&
   (o.reset || (o.n200 == o.ready && o.framed))
 
+/-- observables of one connection to the service that is configured with `forwarding.rules` -/
+structure FwdObs where
+  exc : Bool
+  probeOk : Bool
+  /-- the server closed the connection (after the relayed answer, after the peer's half-close, or because the backend
+  cannot be reached) -/
+  closed : Bool
+  reset : Bool
+  /-- a well-formed request for a backend that is up, from a peer that waits for the answer: it must be answered -/
+  expectAnswer : Bool
+  answered : Bool
+deriving Repr
+
+/-- forwarded requests: whatever `CONTENT_LENGTH` claims and whether or not the backend is up, nothing leaves the event
+loop, other connections are still served, the connection is closed; a well-formed request to a live backend is answered -/
+def fwdOk (o : FwdObs) : Bool :=
+  !o.exc && o.probeOk && (o.reset || o.closed) && (!o.expectAnswer || o.answered)
+
 end Cppcms.C01.Spec
